@@ -200,8 +200,10 @@ func runPop(raw json.RawMessage, seed int64) (res Result) {
 		}
 	}()
 	w := NewWorld(seed)
+	nOwn := 0
 	add := func(pred, d string) {
-		if len(res.Violations) < 6 {
+		if nOwn < 6 {
+			nOwn++
 			res.Violations = append(res.Violations, Violation{"C16", pred, fmt.Sprintf("%s [seed %d]", d, seed)})
 		}
 	}
@@ -228,6 +230,7 @@ func runPop(raw json.RawMessage, seed int64) (res Result) {
 		// padded and cut variants of the suite strings: zero bytes, spaces or repeated last characters appended (up to and beyond 64,
 		// 128 and 168 bytes in total), characters removed from the end
 		const popSuite = "BLS_POP_BLS12381G1_XOF:KMAC128_SSWU_RO_POP_"
+		pairs := 0
 		padded := len(c.Tags) == 1 && c.Tags[0] == "#padded" // a dedicated job: the tag list is the one built here
 		if padded {
 			tags = tags[1:]
@@ -272,7 +275,9 @@ func runPop(raw json.RawMessage, seed int64) (res Result) {
 						continue
 					}
 					if ok, _ := pk.Verify(s1, []byte("tag pair"), h2); ok {
-						res.Violations = append(res.Violations, Violation{"C01", "AcceptanceSet", fmt.Sprintf("a signature under tag %q verifies under tag %q (another domain tag) [seed %d]", order[0], order[1], seed)})
+						if pairs++; pairs <= 3 {
+							res.Violations = append(res.Violations, Violation{"C01", "AcceptanceSet", fmt.Sprintf("a signature under tag %q verifies under tag %q (another domain tag) [seed %d]", order[0], order[1], seed)})
+						}
 					}
 				}
 			}
